@@ -187,7 +187,7 @@ Qed.
 (* the round trip of what Store.Add really writes, hypotheses on the tree as given *)
 Theorem roundtrip_walk pre umask preserve repro T :
   is_dir T = true -> wf_treeb T = true -> modes_okb T = true -> benign_tree T = true ->
-  exists f', extract pre umask preserve (tar_entries pre repro T) = Ok f' /\
+  exists f', extract_prefix pre umask preserve (tar_entries pre repro T) = Ok f' /\
     forall p, fs_lookup f' p = expected_impl umask preserve T p.
 Proof.
   intros Hd Hwf Hmo Hbe.
@@ -205,33 +205,6 @@ Theorem walk_order_irrelevant pre repro t1 t2 :
   sort_tree t1 = sort_tree t2 -> tar_entries pre repro t1 = tar_entries pre repro t2.
 Proof. intro E. unfold tar_entries. now rewrite E. Qed.
 
-Section Codec.
-  Variable digest : Type.
-  Variable H : str -> digest.
-  Variable digest_eqb : digest -> digest -> bool.
-  Variable enc : list entry -> str.
-  Variable dec : str -> option (list entry).
-  Variable gz : str -> str.
-  Variable gunz : str -> option str.
-  Hypothesis digest_eqb_spec : forall a b, digest_eqb a b = true <-> a = b.
-  Hypothesis dec_enc : forall es, dec (enc es) = Some es.
-  Hypothesis gunz_gz : forall s, gunz (gz s) = Some s.
-
-  Theorem unpack_roundtrip_walk pre umask preserve repro T :
-    is_dir T = true -> wf_treeb T = true -> modes_okb T = true -> benign_tree T = true ->
-    exists f', unpack digest H digest_eqb dec gunz umask preserve
-                 (dir_descriptor digest H enc gz pre repro T) (dir_blob enc gz pre repro T) = Ok f' /\
-      forall p, fs_lookup f' p = expected_impl umask preserve T p.
-  Proof.
-    intros Hd Hwf Hmo Hbe.
-    destruct (unpack_roundtrip digest H digest_eqb enc dec gz gunz digest_eqb_spec dec_enc gunz_gz
-                pre umask preserve repro T Hd) as (f' & E & L).
-    - now rewrite wf_sort.
-    - now rewrite modes_sort.
-    - now rewrite benign_tree_sort.
-    - exists f'. split; [exact E|]. intro p. rewrite L. now apply expected_impl_sort.
-  Qed.
-End Codec.
 
 (* ---------- annotations (keys regenerated from content/file/file.go) ---------- *)
 From Oras Require Import Generated.GC12 Model.FileAnnotations.
